@@ -345,6 +345,10 @@ func (ls *LanceroSource) PrepareChannels() error {
 	cnum := ls.firstRowChanNum
 	thisColFirstCnum := cnum - ls.chanSepColumns
 	ls.groupKeysSorted = make([]GroupIndex, 0)
+	// These two are derived from the active devices below. Forget what an earlier run (possibly with a
+	// different number of rows) left behind, or a single card would be mistaken for "mixed row counts".
+	ls.subframeDivisions = 0
+	ls.mixedRowCounts = false
 	for _, device := range ls.active {
 		// For Lancero sources, subframeDivisions = the number of rows.
 		// For sources with multiple LanceroDevice objects, its meaning is ambiguous, but we'll
